@@ -226,6 +226,15 @@ func checkDriver(c *Ctx, g *ebnfGrammar, rule string) *driverFacts {
 		return d
 	}
 	d.tok = tokAlloc
+	// a token variable that is captured by a closure (an `advance()` helper that reads the next token into it) is written where
+	// this function's instructions do not show it: the protocol rules below count stores and reads in the driver itself
+	for _, r := range *tokAlloc.Referrers() {
+		if _, isMC := r.(*ssa.MakeClosure); isMC {
+			c.Undecided(rule, "the current token is only ever assigned from the lexer", pos, "the look-ahead token variable is captured by a closure that assigns it: the driver protocol is not read off this shape")
+			d.ok = false
+			return d
+		}
+	}
 	storesOK := true
 	nStores := 0
 	for _, r := range *tokAlloc.Referrers() {
